@@ -155,11 +155,14 @@ def run_shard(ctx):
             mcount = {p: 0 for p in cur}
 
             def note_query(paths):
+                hit = False
                 for p in paths:
                     if p in last_q and mcount.get(p, 0) > last_q[p]:
                         res.count("mutations_between_queries")
-                        res.nontrivial(case, p, mcount[p])
+                        hit = True
                     last_q[p] = mcount.get(p, 0)
+                if hit:
+                    res.nontrivial(case, len(hist))  # this query saw a path mutated since it was last asked about
 
             def verify(p, name, value, how, hit=False):
                 res.count("answers_checked")
